@@ -450,9 +450,10 @@ class SymFloat:
                         are certified.
     """
 
-    __slots__ = ("expr", "iv", "k", "kind", "qden")
+    __slots__ = ("expr", "iv", "k", "kind", "qden", "ie")
 
-    def __init__(self, expr, iv, k, kind="exact", qden=None):
+    def __init__(self, expr, iv, k, kind="exact", qden=None, ie=None):
+        self.ie = ie          # z3 Int term equal to the value when it is known to be integral (keeps queries in LIA)
         self.expr = expr
         self.iv = iv          # (lo, hi) as Fractions/ints or None
         self.k = k            # value * 2**k is an integer
@@ -464,13 +465,13 @@ class SymFloat:
         if isinstance(o, SymFloat):
             return o
         if isinstance(o, SymInt):
-            r = SymFloat(z3.ToReal(o.expr), o.iv, 0)
+            r = SymFloat(z3.ToReal(o.expr), o.iv, 0, ie=o.expr)
             r._certify("int->float")
             return r
         if isinstance(o, bool):
             o = int(o)
         if isinstance(o, int):
-            r = SymFloat(z3.RealVal(o), (o, o), 0)
+            r = SymFloat(z3.RealVal(o), (o, o), 0, ie=z3.IntVal(o))
             r._certify("int->float")
             return r
         if isinstance(o, float):
@@ -478,7 +479,7 @@ class SymFloat:
                 raise Inconclusive("float-inexact: nan/inf in symbolic float arithmetic")
             fr = _frac_of_float(o)
             k = fr.denominator.bit_length() - 1
-            return SymFloat(_real_val(fr), (fr, fr), k)
+            return SymFloat(_real_val(fr), (fr, fr), k, ie=z3.IntVal(fr.numerator) if fr.denominator == 1 else None)
         if isinstance(o, SymBool):
             return SymFloat.of(SymInt(z3.If(o.expr, 1, 0), (0, 1)))
         raise HarnessError(f"cannot make SymFloat of {type(o)}")
@@ -503,7 +504,8 @@ class SymFloat:
         o = SymFloat.of(o)
         self._need_exact("add")
         o._need_exact("add")
-        r = SymFloat(self.expr + o.expr, _iv_add(self.iv, o.iv), max(self.k, o.k))
+        ie = self.ie + o.ie if self.ie is not None and o.ie is not None else None
+        r = SymFloat(self.expr + o.expr if ie is None else z3.ToReal(ie), _iv_add(self.iv, o.iv), max(self.k, o.k), ie=ie)
         r._certify("float add")
         return r
 
@@ -511,7 +513,7 @@ class SymFloat:
 
     def __neg__(self):
         self._need_exact("neg")
-        return SymFloat(-self.expr, _iv_neg(self.iv), self.k)
+        return SymFloat(-self.expr, _iv_neg(self.iv), self.k, ie=-self.ie if self.ie is not None else None)
 
     def __pos__(self):
         return self
@@ -536,7 +538,8 @@ class SymFloat:
         o = SymFloat.of(o)
         self._need_exact("mul")
         o._need_exact("mul")
-        r = SymFloat(self.expr * o.expr, _iv_mul(self.iv, o.iv), self.k + o.k)
+        ie = self.ie * o.ie if self.ie is not None and o.ie is not None else None
+        r = SymFloat(self.expr * o.expr if ie is None else z3.ToReal(ie), _iv_mul(self.iv, o.iv), self.k + o.k, ie=ie)
         r._certify("float mul")
         return r
 
@@ -590,6 +593,8 @@ class SymFloat:
                     ok = True
             if not ok:
                 raise Inconclusive("float-inexact: comparison of rounded quotient not certified")
+        if self.ie is not None and o.ie is not None:
+            return mk_bool(op(self.ie, o.ie))
         return mk_bool(op(self.expr, o.expr))
 
     def __lt__(self, o):
@@ -613,6 +618,8 @@ class SymFloat:
     # ---- conversions
     def trunc(self):
         self._need_exact("int()")
+        if self.ie is not None:
+            return mk_int(self.ie, self.iv)
         e = self.expr
         iv = None
         if self.iv is not None:
@@ -624,6 +631,8 @@ class SymFloat:
         if n is not None:
             raise Inconclusive("float-inexact: round with digits")
         self._need_exact("round()")
+        if self.ie is not None:
+            return mk_int(self.ie, self.iv)
         e = self.expr
         half = z3.RealVal("1/2")
         r = z3.ToInt(e + half)
